@@ -208,14 +208,14 @@ non-zero, not of the form `ph a b`, and pairwise distinct across the whole histo
 `2^63` additions in total: the Lean model of `Stump.Update`, fed the canonical proofs of the
 specification, accepts every block and ends with exactly the roots and the leaf count of the
 specification forest `run empty hist`. -/
-theorem stump_refines_history (cr : CR H) (nonZero : H) (_hnz : nonZero ≠ (zero : H))
+theorem stump_refines_history (nz : NZ H) (nonZero : H) (_hnz : nonZero ≠ (zero : H))
     (hist : List (Block H)) (hlive : LiveDels Forest.empty hist) (hdn : NodupDels hist)
     (hnd : (allAdds hist).Nodup)
     (hleaf : ∀ x ∈ allAdds hist, x ≠ (zero : H) ∧ ∀ a b : H, x ≠ ph a b)
     (hsmall : (allAdds hist).length ≤ 2 ^ 63) :
     stumpRun nonZero Forest.empty ⟨[], 0#64⟩ hist =
       some ⟨(run Forest.empty hist).roots, BitVec.ofNat 64 (run Forest.empty hist).numLeaves⟩ :=
-  stump_refines_history' cr.nonzero nonZero hist hlive hdn hnd (fun x hx => (hleaf x hx).1) hsmall
+  stump_refines_history' nz.nonzero nonZero hist hlive hdn hnd (fun x hx => (hleaf x hx).1) hsmall
 
 /-- a valid history from the empty accumulator (the hypotheses of `stump_refines_history`) -/
 structure ValidHistory (hist : List (Block H)) : Prop where
@@ -227,15 +227,15 @@ structure ValidHistory (hist : List (Block H)) : Prop where
 
 /-- **Batching independence for `Stump`**: two valid histories with the same concatenated
 additions and the same set of deletions leave the SAME stump behind (and both runs accept). -/
-theorem stump_batching_independent (cr : CR H) (nonZero : H) (hnz : nonZero ≠ (zero : H))
+theorem stump_batching_independent (nz : NZ H) (nonZero : H) (hnz : nonZero ≠ (zero : H))
     (h1 h2 : List (Block H)) (v1 : ValidHistory h1) (v2 : ValidHistory h2)
     (hadds : allAdds h1 = allAdds h2) (hdels : ∀ x, x ∈ allDels h1 ↔ x ∈ allDels h2) :
     stumpRun nonZero Forest.empty ⟨[], 0#64⟩ h1 = stumpRun nonZero Forest.empty ⟨[], 0#64⟩ h2 ∧
     stumpRun nonZero Forest.empty ⟨[], 0#64⟩ h1 =
       some ⟨(run Forest.empty h1).roots, BitVec.ofNat 64 (run Forest.empty h1).numLeaves⟩ := by
-  have e1 := stump_refines_history cr nonZero hnz h1 v1.live v1.dels_nodup v1.adds_nodup
+  have e1 := stump_refines_history nz nonZero hnz h1 v1.live v1.dels_nodup v1.adds_nodup
     v1.adds_leaf v1.small
-  have e2 := stump_refines_history cr nonZero hnz h2 v2.live v2.dels_nodup v2.adds_nodup
+  have e2 := stump_refines_history nz nonZero hnz h2 v2.live v2.dels_nodup v2.adds_nodup
     v2.adds_leaf v2.small
   have e := (batching_independent h1 h2 v1.adds_nodup v1.live v2.live hadds hdels).1
   refine ⟨?_, e1⟩
@@ -381,7 +381,7 @@ theorem histC_valid : ValidHistory histC where
 /-- `stump_refines_history` instantiated on that history -/
 example : stumpRun (T.leaf 0) Forest.empty ⟨[], 0#64⟩ histC =
     some ⟨(run Forest.empty histC).roots, BitVec.ofNat 64 (run Forest.empty histC).numLeaves⟩ :=
-  stump_refines_history cr (T.leaf 0) (by intro h; cases h) histC histC_valid.live
+  stump_refines_history cr.toNZ (T.leaf 0) (by intro h; cases h) histC histC_valid.live
     histC_valid.dels_nodup histC_valid.adds_nodup histC_valid.adds_leaf histC_valid.small
 
 /-- the same operations batched differently (all additions first, deletions later and in another
@@ -412,7 +412,7 @@ theorem histD_valid : ValidHistory histD where
 /-- `stump_batching_independent` applies to the two batchings -/
 example : stumpRun (T.leaf 0) Forest.empty ⟨[], 0#64⟩ histC =
     stumpRun (T.leaf 0) Forest.empty ⟨[], 0#64⟩ histD :=
-  (stump_batching_independent cr (T.leaf 0) (by intro h; cases h) histC histD histC_valid
+  (stump_batching_independent cr.toNZ (T.leaf 0) (by intro h; cases h) histC histD histC_valid
     histD_valid (by decide)
     (by intro x; simp [histC, histD, allDels]; constructor <;>
           (intro h; rcases h with h | h | h <;> simp [h]))).1
